@@ -42,6 +42,7 @@ pub struct SymbolUsage {
     pub path: Located<IdentifierPath>,
 }
 
+#[derive(Clone)]
 pub struct SymbolSnapshot {
     pub current_scope_nx: SymbolIndex,
     pub symbols: SymbolTable<Symbol>,
